@@ -120,6 +120,21 @@ impl Run {
     });
     e.1 += 1;
   }
+  /// Records a violation that stands for `n` occurrences (aggregated by an external oracle).
+  pub fn violation_n(&self, key: &str, what: &str, replay: J, n: u64) {
+    let mut g = self.inner.lock().unwrap();
+    let e = g.violations.entry(key.to_string()).or_insert_with(|| {
+      (
+        Violation {
+          key: key.to_string(),
+          what: what.to_string(),
+          replay,
+        },
+        0,
+      )
+    });
+    e.1 += n;
+  }
   pub fn machinery_error(&self, what: &str) {
     self.inner.lock().unwrap().machinery_errors.push(what.to_string());
   }
@@ -201,7 +216,16 @@ impl Run {
     if shown > 40 {
       let _ = writeln!(out, "... {} distinct violation keys in total (the first 200 replays written under {})", shown, dir);
     }
-    let wall = self.start.elapsed().as_secs_f64();
+    let mut wall = self.start.elapsed().as_secs_f64();
+    // multi-step checks (engine -> external oracle -> report) pass the start of the first step
+    if let Some(t0) = std::env::var("VERIF_T0").ok().and_then(|s| s.parse::<f64>().ok()) {
+      if let Ok(now) = std::time::SystemTime::now().duration_since(std::time::UNIX_EPOCH) {
+        let w = now.as_secs_f64() - t0;
+        if w > wall && w < 86400.0 {
+          wall = w;
+        }
+      }
+    }
     let mut cov = std::mem::take(&mut g.coverage);
     if !cov.contains_key("samples") {
       cov.insert("samples".into(), J::Array(g.samples.clone()));
